@@ -2,3 +2,4 @@ pub mod c09;
 pub mod c10;
 pub mod c16;
 pub mod c17;
+pub mod w4props;
